@@ -392,8 +392,19 @@ ChibiSplice(t) ==       \* acc = <<out, skip, pending new-lines>>
                       ELSE <<Append(acc[1], t[i]), FALSE, acc[3]>>,
                     <<<<>>, FALSE, 0>>, Range1(Len(t)))
   IN r[1] \o [j \in 1..r[3] |-> cLF]
+(* Position independence.  The file is read in blocks (read_file: 4096 bytes); phases 1-2 are functions of the
+   whole text, so a line end may fall anywhere relative to a block edge.  Variant "chunk3" is the wrong design in
+   which canonicalize_newline runs per block (block length 3 here) without carrying state: a CR that ends a block
+   and the LF that opens the next one become two new-lines.  TLC must reject it (LitPhase: Refines).           *)
+Blocks(t, n) == [b \in 1..((Len(t) + n - 1) \div n) |-> SubSeq(t, (b - 1) * n + 1, IF b * n < Len(t) THEN b * n ELSE Len(t))]
+ChibiCanonBlocks(t, n) == Flat(Map(Blocks(t, n), LAMBDA blk : ChibiCanon(blk, "ok")))
 ChibiPhase12(t, Variant) ==
-  ChibiSplice(ChibiCanon(IF Variant = "no-bom" THEN t ELSE StripBOM(t), Variant))
+  IF Variant = "chunk3" THEN ChibiSplice(StripBOM(ChibiCanonBlocks(t, 3)))
+  ELSE ChibiSplice(ChibiCanon(IF Variant = "no-bom" THEN t ELSE StripBOM(t), Variant))
+(* the replay's long-file family: offsets (0-based) of the first byte of every end-of-line indicator of an
+   encoded text, and the lengths of a leading pad that put that byte at offset edge-1 (the last byte of a block) *)
+EolOffsets(t) == {i - 1 : i \in {j \in DOMAIN t : t[j] = cCR \/ (t[j] = cLF /\ (j = 1 \/ t[j - 1] # cCR))}}
+StraddlePads(t, edge) == {edge - 1 - o : o \in {x \in EolOffsets(t) : x <= edge - 1}}
 (* a text with runs of new-lines collapsed (blank lines carry no tokens) *)
 Squeeze(t) == FoldLeft(LAMBDA acc, b : IF b = cLF /\ acc # <<>> /\ acc[Len(acc)] = cLF THEN acc ELSE Append(acc, b), <<>>, t)
 =============================================================================
